@@ -173,7 +173,7 @@ func main() {
 	// Self-test runs (-mut: an overlay mutant of /repo) never write into /verif/evidence or
 	// /verif/replays: those describe the real tree only.
 	outDir := verifDir
-	if *mut != "" {
+	if *mut != "" || os.Getenv("VERIF_SELFTEST_OUT") != "" { // also: runs against a deliberately patched /repo (tools/try_patch.sh)
 		if d := os.Getenv("VERIF_SELFTEST_OUT"); d != "" {
 			outDir = d
 		} else {
